@@ -635,6 +635,125 @@ theorem interrupted_pull_resumes :
   · have hq : (pull cfgF toyHash 0 regA scCut st0).2.1.partials dA = ⟨some [1, 0], [⟨0, 2, 0⟩]⟩ := by decide
     rw [hq]; exact ⟨[1, 0], 0, rfl, by decide, by decide, by decide⟩
 
+/-! ## Sizes: what IS established -/
+
+/-- **What a successful pull establishes about sizes** (current tree = `verifyEarly`; no assumption about the manifest's
+    `size` fields): for every served layer the bytes on disk are bytes that hash to the layer's digest — so the stored
+    LENGTH is the length of a preimage of the digest — and the layer has "exactly the manifest's size" if and only if
+    the manifest declares that length.  If moreover the registry's blob `c0` is the only preimage of the digest that is
+    around (`hone`: second-preimage resistance for this digest), the stored blob IS the registry's blob, byte for
+    byte, and the size clause holds exactly when the manifest's `size` is `c0.length`.  Nothing in the code compares
+    `size` with anything: `size_lie_accepted`. -/
+theorem pull_success_stored_is_published (cfg : Cfg) (hash : Bytes → Digest) (name : Name) (reg : Registry)
+    (sc : Scripts) (st st' : Store) (log : Log) (hearly : cfg.verifyEarly = true)
+    (hinv : BlobInv hash st) (h : pull cfg hash name reg sc st = (.ok (), st', log)) :
+    ∀ l ∈ reg.manifest.all, ∃ d c, l.digest = .ok d ∧ st'.blobs d = some c ∧ hash c = d ∧
+      (∀ c0, (∀ x, hash x = d → x = c0) → c = c0 ∧ (c.length = l.size ↔ l.size = c0.length)) := by
+  intro l hl
+  obtain ⟨d, c, hd, hc, hh⟩ := (pull_success_complete_fixed cfg hash name reg sc st st' log hearly hinv h).1 l hl
+  refine ⟨d, c, hd, hc, hh, ?_⟩
+  intro c0 hone
+  have e : c = c0 := hone c hh
+  subst e
+  exact ⟨rfl, ⟨fun x => x.symm, fun x => x.symm⟩⟩
+
+/-- non-vacuity: for the toy hash (first byte) restricted to … no: `hone` cannot hold for the toy hash (many preimages);
+    the first four conjuncts are exercised by the honest two-layer pull -/
+example : (pull cfgF toyHash 0 regAB Scripts.honest st0).1 = .ok () ∧
+    (pull cfgF toyHash 0 regAB Scripts.honest st0).2.1.blobs dA = some cA ∧ toyHash cA = dA ∧ cA.length = 2 := by decide
+
+/-! ## What a failed attempt can leave that an honest retry does NOT recover from at once -/
+
+/-- layer A's only chunk answers with an error page whose read ends in `ErrUnexpectedEOF` after one byte: the byte is
+    written and the progress PERSISTED (status codes are never looked at), five more tries fail on the network -/
+def scJunkPersisted : Scripts :=
+  ⟨[], [], [(dA, ⟨[], [], [(.body (.junk [9, 9]) (some 1) .ueof) :: List.replicate 5 .neterr]⟩)], none⟩
+
+/-- **Boundary witness for "a later retry can still succeed"** (why `ResumeOk` asks the data file to agree with the blob):
+    a failed attempt can persist bytes that are not the blob's.  The first honest retry fetches only the rest, the
+    assembled file fails verification and is removed together with the records; the SECOND honest retry succeeds.  (The
+    other excluded state is a record whose size is not the blob's length: `stuck_plan_never_recovers`, never recovers.) -/
+theorem corrupt_resume_needs_two_retries :
+    let r1 := pull cfgF toyHash 0 regA scJunkPersisted st0
+    let r2 := pull cfgF toyHash 0 regA Scripts.honest r1.2.1
+    let r3 := pull cfgF toyHash 0 regA Scripts.honest r2.2.1
+    r1.1 = .err .maxRetries ∧ r1.2.1.partials dA = ⟨some [9, 0], [⟨0, 2, 1⟩]⟩ ∧
+    r2.1 = .err .digestMismatch ∧ r2.2.1.blobs dA = none ∧ r2.2.1.partials dA = Partial.none ∧
+    r3.1 = .ok () ∧ r3.2.1.blobs dA = some cA := by decide
+
+/-- the resume state a store may hold for the layers still missing: none, the single-part state `Resume1Ok`, or ANY
+    number of part records that fit the blob (`ResumeFits`: truthful total, data agreeing with the blob on every byte
+    counted as complete, records covering the blob; any order, as `filepath.Glob` returns them) -/
+def ResumeOkN (st : Store) (reg : Registry) : Prop :=
+  ∀ l ∈ reg.manifest.all, ∀ d, l.digest = .ok d → st.blobs d = none → ∀ c, lookupC d reg.content = some c →
+    st.partials d = Partial.none ∨ Resume1Ok c (st.partials d) ∨ ResumeFits c (st.partials d)
+
+theorem ResumeOk.toN {st : Store} {reg : Registry} (h : ResumeOk st reg) : ResumeOkN st reg :=
+  fun l hl d hd hn c hc => (h l hl d hd hn c hc).elim Or.inl (fun r => Or.inr (Or.inl r))
+
+/-- **A retry can succeed from multi-part resume state too**: honest registry, intact blobs, and for every missing layer
+    either no resume state or one that fits the blob (any number of records, any order) ⇒ `pull` reports success: only
+    the bytes no record counts as complete are requested, and the file that is renamed is the blob, byte for byte.
+    Excluded — and really not recoverable at once: records whose sizes do not add up to the blob's length
+    (`stuck_plan_never_recovers`, known finding C03-stuckplan: never) and a data file that differs from the blob on a
+    byte counted as complete (`corrupt_resume_needs_two_retries`: the second retry). -/
+theorem retry_can_succeed_resume_multi (cfg : Cfg) (hash : Bytes → Digest) (name : Name) (reg : Registry) (st : Store)
+    (hret : 0 < cfg.retries) (hmin : 0 < cfg.minSize) (hmax : 0 < cfg.maxSize)
+    (hreg : HonestReg hash reg) (hinv : BlobInv hash st) (hres : ResumeOkN st reg) :
+    (pull cfg hash name reg Scripts.honest st).1 = .ok () := by
+  obtain ⟨s', hdl, hb'⟩ := dlLoop_honest_resumeN cfg hash reg hret hmin hmax reg.manifest.all
+    ⟨st, { tok := [], nm := 1 }, [], [], false⟩ hreg hinv hres rfl
+  have hpresent : ∀ l ∈ reg.manifest.all, ∀ d, l.digest = .ok d → ∃ c, s'.st.blobs d = some c := by
+    intro l hl d hd
+    obtain ⟨d', c, hd', hc⟩ := dlLoop_ok_present _ hdl l hl
+    rw [hd] at hd'; cases hd'; exact ⟨c, hc⟩
+  have hv : (if cfg.verifyEarly = true then ((R.ok () : Outcome), s'.st)
+      else verifyLoop hash s'.skip reg.manifest.all s'.st) = (.ok (), s'.st) := by
+    split
+    · rfl
+    · exact verifyLoop_honest hash s'.skip reg.manifest.all s'.st hb' hpresent
+  have hdl' : dlLoop cfg hash reg ⟨[], [], [], none⟩ reg.manifest.all ⟨st, { tok := [], nm := 1 }, [], [], false⟩ = (.ok (), s') := hdl
+  show (pull cfg hash name reg ⟨[], [], [], none⟩ st).1 = .ok ()
+  simp only [pull, mrr_pass_dflt, hdl', hv]
+  simp
+
+/-- a two-part plan for a four-byte blob -/
+def cfgM : Cfg := { cfgF with nparts := 2, minSize := 1, maxSize := 1000 }
+def cA4 : Bytes := [1, 10, 20, 30]
+def regA4 : Registry := ⟨⟨[⟨.ok dA, 4, 0⟩], ⟨.empty, 0, 0⟩⟩, [(dA, cA4)], [0]⟩
+/-- part 0 completes; part 1 gets one byte (`ErrUnexpectedEOF`: progress persisted), then the network fails five times -/
+def scHalf : Scripts :=
+  ⟨[], [], [(dA, ⟨[], [], [[], (.body .honest (some 1) .ueof) :: List.replicate 5 .neterr]⟩)], none⟩
+
+/-- **Witness / non-vacuity (multi-part)**: a failed two-part download leaves two records (one complete, one half done)
+    that fit the blob; the honest retry requests only the missing byte range and succeeds. -/
+theorem multipart_failed_pull_resumes :
+    let r1 := pull cfgM toyHash 0 regA4 scHalf st0
+    let r2 := pull cfgM toyHash 0 regA4 Scripts.honest r1.2.1
+    r1.1 = .err .maxRetries ∧ r1.2.1.partials dA = ⟨some [1, 10, 20, 0], [⟨0, 2, 2⟩, ⟨2, 2, 1⟩]⟩ ∧
+    ResumeFits cA4 (r1.2.1.partials dA) ∧
+    r2.1 = .ok () ∧ r2.2.1.blobs dA = some cA4 ∧ r2.2.1.partials dA = Partial.none ∧ r2.2.2.net.nc = 1 ∧ r2.2.2.net.nh = 0 := by
+  have hp : (pull cfgM toyHash 0 regA4 scHalf st0).2.1.partials dA = ⟨some [1, 10, 20, 0], [⟨0, 2, 2⟩, ⟨2, 2, 1⟩]⟩ := by decide
+  refine ⟨by decide, hp, ?_, by decide, by decide, by decide, by decide, by decide⟩
+  rw [hp]
+  refine ⟨[1, 10, 20, 0], rfl, by decide, by decide, by decide, ?_, ?_⟩
+  · intro p hpm
+    simp only [List.mem_cons, List.not_mem_nil, or_false] at hpm
+    rcases hpm with rfl | rfl
+    · refine ⟨by decide, by decide, ?_⟩
+      intro i h1 h2
+      have : i = 0 ∨ i = 1 := by simp only at h1 h2; omega
+      rcases this with rfl | rfl <;> rfl
+    · refine ⟨by decide, by decide, ?_⟩
+      intro i h1 h2
+      have : i = 2 := by simp only at h1 h2; omega
+      subst this; rfl
+  · intro i hi
+    have hi' : i < 4 := hi
+    by_cases h : i < 2
+    · exact ⟨⟨0, 2, 2⟩, by simp, by simp, by simpa using h⟩
+    · exact ⟨⟨2, 2, 1⟩, by simp, by simp; omega, by simp; omega⟩
+
 /-! ## Histories: any number of pulls, of any names, against a registry that may re-publish in between -/
 
 /-- **A successful pull keeps every OTHER name intact too** (current tree = `verifyEarly`): it installs the served
@@ -712,6 +831,27 @@ theorem history_then_honest_retry_succeeds (cfg : Cfg) (hash : Bytes → Digest)
     NameInv hash r.2.1 := by
   obtain ⟨hb', hn'⟩ := history_inv cfg hash hearly steps st hb hn
   have hok := retry_can_succeed cfg hash name reg (finalStore cfg hash steps st) hret hmin hmax hreg hb' hclean
+  generalize hp : pull cfg hash name reg Scripts.honest (finalStore cfg hash steps st) = r at hok ⊢
+  obtain ⟨o, st', log⟩ := r
+  simp only at hok
+  subst hok
+  have h1 := pull_success_complete_fixed cfg hash name reg Scripts.honest _ st' log hearly hb' hp
+  exact ⟨rfl, h1.2, h1.1, pull_success_preserves_names cfg hash name reg Scripts.honest _ st' log hearly hb' hn' hp⟩
+
+/-- **After any history, from any fitting resume state** (current tree): whatever happened before, if the registry is
+    then honest and what the history left for the missing layers fits their blobs, the pull succeeds, installs the
+    served manifest with every layer verified and leaves every other name intact. -/
+theorem history_then_retry_from_resume_succeeds (cfg : Cfg) (hash : Bytes → Digest) (hearly : cfg.verifyEarly = true)
+    (hret : 0 < cfg.retries) (hmin : 0 < cfg.minSize) (hmax : 0 < cfg.maxSize)
+    (steps : List HStep) (st : Store) (hb : BlobInv hash st) (hn : NameInv hash st)
+    (name : Name) (reg : Registry) (hreg : HonestReg hash reg)
+    (hres : ResumeOkN (finalStore cfg hash steps st) reg) :
+    let r := pull cfg hash name reg Scripts.honest (finalStore cfg hash steps st)
+    r.1 = .ok () ∧ lookupM name r.2.1.manifests = some (.readable reg.manifest) ∧
+    (∀ l ∈ reg.manifest.all, ∃ d c, l.digest = .ok d ∧ r.2.1.blobs d = some c ∧ hash c = d) ∧
+    NameInv hash r.2.1 := by
+  obtain ⟨hb', hn'⟩ := history_inv cfg hash hearly steps st hb hn
+  have hok := retry_can_succeed_resume_multi cfg hash name reg (finalStore cfg hash steps st) hret hmin hmax hreg hb' hres
   generalize hp : pull cfg hash name reg Scripts.honest (finalStore cfg hash steps st) = r at hok ⊢
   obtain ⟨o, st', log⟩ := r
   simp only at hok
